@@ -39,6 +39,7 @@ OBLIGATIONS = [
     "VgiVerif.C23.C23_ret",
     "VgiVerif.C23.C23_size_always",
     "VgiVerif.C23.C23_concurrent_readings",
+    "VgiVerif.C23.C23_reading_le_acquire",
     "VgiVerif.C23.C23_concurrent",
     "VgiVerif.C23.C23_observe_sound",
 ]
@@ -539,12 +540,12 @@ def run(ctx: Any) -> None:
     # ---- K2 / O: concurrent
     bound = 3 if thorough else 2
     cfgs: list[tuple[dict[str, Any], int, int, int]] = []
-    per = ctx.budget(160, 3000)
+    per = ctx.budget(160, 2000)
     for c in CONC_CORPUS:
         cfgs.append((dict(c, src="corpus"), per, bound, per // 8))
     for c in CONC_CORPUS[:4]:
         cfgs.append((dict(c, src="corpus", lines=True, observer=3), per, bound, per // 4))
-    for i in range(ctx.budget(8, 40)):
+    for i in range(ctx.budget(8, 30)):
         c = gen_conc(rng, 2 if i % 3 else 3)
         if i % 2:
             c["lines"] = True
